@@ -11,6 +11,8 @@ import (
 	"runtime/debug"
 	"strings"
 	"sync"
+	"sync/atomic"
+	"time"
 
 	"github.com/database64128/shadowsocks-go/conn"
 	"github.com/database64128/shadowsocks-go/logging"
@@ -35,30 +37,80 @@ type failer interface {
 	Fatalf(format string, args ...any)
 }
 
-// guard runs f, which calls into the code under test on the current goroutine. The service has no
+// guard runs f, which calls into the code under test (on a goroutine of its own, so that a call that never
+// returns can be told from a slow one). The service has no
 // recover() anywhere, so a panic here is the same event as the process dying: it is turned into a
 // failure - never into a pass. The only exception is an exact signature listed as an open finding in
 // known_findings.json, which is counted (KnownHit) so that the rest of the case can continue.
 func guard(t failer, rec *ev.Recorder, stage string, desc func() string, f func()) (known bool) {
-	defer func() {
-		r := recover()
-		if r == nil {
-			return
+	type outcome struct {
+		completed bool
+		panicked  bool
+		val       any
+		stack     []byte
+	}
+	done := make(chan outcome, 1)
+	go func() {
+		var out outcome
+		defer func() {
+			if r := recover(); r != nil {
+				out.panicked, out.val, out.stack = true, r, debug.Stack()
+			}
+			done <- out
+		}()
+		f()
+		out.completed = true
+	}()
+	bound := completionBound
+	if stallSeen.Load() {
+		bound = completionBound / 8 // the process already carries a spinning goroutine: report (and shrink) fast
+	}
+	timer := time.NewTimer(bound)
+	defer timer.Stop()
+	select {
+	case out := <-done:
+		switch {
+		case out.completed:
+			return false
+		case !out.panicked:
+			// runtime.Goexit: a testing.T Fatalf issued inside f (already recorded as a failure)
+			t.Fatalf("stage=%s stopped by the failure reported above; input=%s", stage, desc())
+			return false
 		}
-		if fmt.Sprintf("%T", r) == "rapid.stopTest" {
-			panic(r) // a rapid Fatalf issued inside f: not a panic of the code under test
+		if fmt.Sprintf("%T", out.val) == "rapid.stopTest" {
+			panic(out.val) // a rapid Fatalf issued inside f: not a panic of the code under test
 		}
-		sig := panicSig(stage, r)
+		sig := panicSig(stage, out.val)
 		if ev.IsKnown(prop, sig) {
 			rec.KnownHit(sig)
-			known = true
-			return
+			return true
 		}
-		t.Fatalf("SIG=%s VERIF-VIOLATION stage=%s panic=%v input=%s\n%s", sig, stage, r, desc(), debug.Stack())
-	}()
-	f()
+		t.Fatalf("SIG=%s VERIF-VIOLATION stage=%s panic=%v input=%s\n%s", sig, stage, out.val, desc(), out.stack)
+	case <-timer.C:
+		// The work is microseconds; the bound is many orders of magnitude above it. A call that does not come back is
+		// the same event for everybody else as a crash when it happens under a lock or on a listener's only receive
+		// goroutine. The goroutine is abandoned (it may spin for the rest of the process).
+		sig := "C06/" + stage + "-did-not-return"
+		stallSeen.Store(true)
+		if ev.IsKnown(prop, sig) {
+			rec.KnownHit(sig)
+			return true
+		}
+		t.Fatalf("SIG=%s VERIF-VIOLATION stage=%s did not return within %s input=%s", sig, stage, bound, desc())
+	}
 	return false
 }
+
+// completionBound is the generous bound on any single call into the code under test. Inside the fuzz engine it is
+// shorter so that a stuck worker is reported as a failing input before the stage's -fuzztime ends.
+var stallSeen atomic.Bool
+
+var completionBound = func() time.Duration {
+	if isFuzzWorker {
+		return 6 * time.Second
+	}
+	return 20 * time.Second
+}()
 
 func panicSig(stage string, r any) string {
 	if err, ok := r.(error); ok && errors.Is(err, portset.ErrZeroPort) && strings.HasPrefix(stage, "route") {
